@@ -16,9 +16,58 @@ EXTRA_CONFIGS = ["dns"]
 NORMALISERS = ("eq_ignore_ascii_case", "to_ascii_lowercase", "to_ascii_uppercase", "make_ascii_lowercase", "make_ascii_uppercase")
 
 
+DROPPERS = ("filter", "filter_map", "take", "skip", "step_by", "take_while", "skip_while", "find", "find_map", "last", "nth", "next",
+            "min", "max", "min_by", "max_by", "min_by_key", "max_by_key", "flat_map", "flatten", "zip", "reduce", "fold")
+SHRINKERS = ("truncate", "dedup", "dedup_by", "dedup_by_key", "retain", "retain_mut", "pop", "remove", "swap_remove", "drain", "clear", "split_off")
+
+
+def _r7_every_configured_suffix_is_routed(ctx):
+    """the table the router scans is the table the operator wrote: every entry of `domain-suffixes` becomes a suffix of its route
+    (dropping one that looks redundant inside its own route changes which *other* route is the longest match)"""
+    P = ctx.P
+    builders = [b for b in P.bodies.values() if "dns::config::" in b.id and list(find_aggs(P, "dns::config::Route", [b]))]
+    if not builders:
+        if ctx.config in ("default", "dns"):
+            ctx.bad("R7", "anchor", "", "no function of dns::config builds a Route")
+        return
+    n = 0
+    for b in builders:
+        root = b.id
+        while P.bodies[root].parent:
+            root = P.bodies[root].parent
+        fam = P.family(root)
+        for x in fam:
+            ctx.saw(x)
+        T = terms(P, b)
+        for _, bb, idx, st in find_aggs(P, "dns::config::Route", [b]):
+            n += 1
+            t = norm(dict(T.rvalue(st["rv"], bb, idx)[3]).get("suffixes", ("unknown",)))
+            # the steps between the read of the key and the field; what feeds the read itself (the walk over the hash) is not one
+            reads_key = lambda x: x[0] == "call" and any(is_const(norm(a), "domain-suffixes") for a in x[2])
+            steps = [str(x[1]) for x in subterms(t, prune=reads_key) if x[0] == "call" and isinstance(x[1], str) and not reads_key(x)]
+            bad = sorted({s_.rsplit("::", 1)[-1] for s_ in steps if "iter" in s_.lower() and s_.rsplit("::", 1)[-1] in DROPPERS})
+            src = [x for x in subterms(t) if reads_key(x)]
+            ctx.check(not bad and bool(src), "R7", "route-suffixes=every-configured-suffix", ctx.where(b, st["sp"]),
+                      "Route.suffixes must be the parsed `domain-suffixes` list, element for element (adaptors that drop or merge "
+                      "elements on the way: %s; list read from the key: %s)" % (bad or "none", bool(src)))
+        shr = []
+        for x in fam:
+            for bb, tm in x.calls():
+                nme = callee_name(tm) or ""
+                if nme.rsplit("::", 1)[-1] in SHRINKERS and tm["args"]:
+                    pl = op_place(tm["args"][0])
+                    ty = x.local_ty(pl[0]) if pl else ""
+                    if "dnspkt::Domain" in ty or "config::Route" in ty:
+                        shr.append("%s at %s" % (nme.rsplit("::", 1)[-1], P.rel(tm["sp"])))
+        ctx.check(not shr, "R7", "suffix-and-route-lists-never-shrink:%s" % root.rsplit("::", 1)[-1], ctx.where(P.bodies[root]),
+                  "no suffix or route may be removed after parsing: %s" % (shr or "ok"))
+    ctx.floor("R7", "route constructions in the loader", n, 2)
+
+
 def run(ctx):
     P = ctx.P
     cg = callgraph(P)
+    _r7_every_configured_suffix_is_routed(ctx)
     ew = "erbium::dns::dnspkt::Domain::ends_with"
     if ew not in P.bodies:
         ctx.bad("R1", "anchor", "", "Domain::ends_with not found")
